@@ -155,6 +155,10 @@ func RunOne(t *testing.T, prop string, seed uint64, sc Scenario, o RunOpts, res 
 		if k.StopReason() != "step-cap" && k.StopReason() != "panic" {
 			viol = append(viol, sc.Check(k)...)
 		}
+		if k.Livelock {
+			viol = append(viol, sim.Violation{Clause: "progress", Key: "livelock " + k.SpinTask,
+				Detail: sf("the run reached the step cap (%d steps) and in its last %d steps no byte moved, nothing was recorded, no connection was made or ended and the simulated clock stood still at %v: task %q spins (last seen at %s)", k.Steps(), sim.LivelockWindow, k.Elapsed(), k.SpinTask, k.SpinSite)})
+		}
 		left := k.Drain()
 		viol = append(viol, sc.PostDrain(k, left)...)
 		if f, ok := sc.(interface {
